@@ -24,7 +24,8 @@ META = {
     "technique": "Lean 4 proof over spec model and over a store-level transcription of map.wa + single-source differential execution Wa/Go/Lean + dict oracle",
 }
 REQUIRED = ["lookup_agrees", "len_eq_card", "range_visits_each_once", "keys_nodup",
-            "delete_refines_spec_false"]
+            "search_correct_of_BST", "rotate_preserves_inorder", "rotate_right_preserves_inorder", "insert_path_refines_spec",
+            "delete_refines_spec_false", "witness_pinned_behaviour", "witness_fixed_behaviour"]
 
 HEX = "0123456789abcdef"
 VS = ["v%d" % i if i % 3 else "w" * (i % 7 + 1) + str(i) for i in range(61)]     # string values (all non-empty)
